@@ -543,7 +543,7 @@ Section CacheConfinement.
     - destruct (serve _ _ _ _ _ _ _ _ _ _ st now r) as [[st1 rp] lg] eqn:Es.
       intros H; inversion H; subst. cbn [obs_ok]. eapply serve_conf; eassumption.
     - destruct st as [c hs]. intros H; inversion H; subst. cbn [fst obs_ok]. split; [|exact I].
-      unfold clear_page. apply CInv_remove, CInv_remove. exact Hc.
+      unfold clear_page, clear_uri. destruct (redirect_target r); repeat apply CInv_remove; exact Hc.
     - destruct st as [c hs]. intros H; inversion H; subst. cbn [fst obs_ok]. split; [apply CInv_nil|exact I].
     - intros H; inversion H; subst. split; [exact Hc|exact I].
   Qed.
